@@ -212,7 +212,7 @@ func (x *Exec) applyContract(n *node, fs *FuncSpec, callee *ssa.Function, name s
 		env.assume = false
 		g := env.EvalBool(c.Expr)
 		x.reportSpecErrors(env, name, c)
-		x.Oblige("pre", clauseLabel(c)+" @"+name, fmt.Sprint(pos), pos, n.guard, g, nil)
+		x.Oblige("pre", clauseLabel(c)+" @"+name, fmt.Sprint(pos), pos, n.guard, g, c.Props)
 		x.VC.Assume(n.guard, g, "pre-holds-after-check")
 	}
 	// havoc modifies
@@ -975,7 +975,7 @@ func (x *Exec) spawnClosure(n *node, fv Value, pos token.Pos, queue string) {
 		case "requires":
 			g := env.EvalBool(cl.Expr)
 			x.reportSpecErrors(env, name, cl)
-			x.Oblige("pre", clauseLabel(cl)+" @schedule "+name, fmt.Sprint(pos), pos, n.guard, g, nil)
+			x.Oblige("pre", clauseLabel(cl)+" @schedule "+name, fmt.Sprint(pos), pos, n.guard, g, cl.Props)
 		}
 	}
 	for _, cl := range fs.CallCase().Clauses {
